@@ -257,6 +257,15 @@ def finish(pid, level, theorems, proof, corr, t0, build_res, extra_trusted=(), a
     ev = {"property_id": pid, "tier": tr, "seed": sd, "level": level, "coverage": cov,
           "assumptions": list(assumptions), "wall_s": round(time.time() - t0, 2), "violations": nviol}
     json.dump(ev, open(os.path.join(VERIF, "evidence", pid + ".json"), "w"), indent=1, default=str)
+    # scratch directories of workers that are gone (older than half an hour; concurrent checks keep theirs)
+    try:
+        wbase = os.path.join(VERIF, ".work")
+        for n in os.listdir(wbase):
+            q = os.path.join(wbase, n)
+            if n.startswith("w") and os.path.isdir(q) and time.time() - os.path.getmtime(q) > 1800:
+                shutil.rmtree(q, ignore_errors=True)
+    except OSError:
+        pass
     # the implementation writes coloured error messages to stderr whose reset code comes after the newline; when the two
     # streams are merged that code would sit in front of the next line: end it on a line of its own
     sys.stdout.flush(); sys.stderr.write("\n"); sys.stderr.flush()
